@@ -112,6 +112,11 @@ func (g *G) tx(v *view, check bool) script.Tx {
 	if check && g.chance(70) { // probes concentrate on the fee-checked kinds
 		kind = g.pick("wrk.reg", "wrk.rec", "wrk.buy", "bcn.reg", "bcn.rec", "bcn.buy")
 	}
+	if pre, ok := prerequisite[kind]; ok && aware && !g.feasible(kind, v, -1) && g.chance(75) {
+		if kind = pre; !g.feasible(kind, v, -1) && prerequisite[kind] != "" {
+			kind = prerequisite[kind]
+		}
+	}
 	var msgs []script.Msg
 	first := g.msg(kind, v, aware, -1, 0)
 	if kind != "authz.exec" && g.chance(g.w.execPct) {
@@ -125,7 +130,11 @@ func (g *G) tx(v *view, check bool) script.Tx {
 	signer := signerOf(first)
 	if g.chance(g.w.multiPct) && signer >= 0 {
 		for extra := 1 + g.rng.Intn(3); extra > 0; extra-- {
-			msgs = append(msgs, g.msg(g.kind(), v, aware, signer, 0))
+			k := g.kind()
+			if aware && !g.feasible(k, v, signer) {
+				k = g.pick(anyone...)
+			}
+			msgs = append(msgs, g.msg(k, v, aware, signer, 0))
 		}
 	}
 	if g.w.scramble > 0 && g.chance(g.w.scramble) { // signer focus: anybody signs, anybody is named
